@@ -167,6 +167,23 @@ theorem frag_share (codec : Codec) (hrt : codec.RoundTrip) (h : Bytes → UInt32
     | loc i o => exact ⟨i, o, st2, hpf, hb⟩
   · rw [herr] at hrun; cases hrun
 
+/-- **The hash table's probe order does not matter.** `lib/util/src/hash_table.c` probes entries of equal hash in
+an order that depends on the table size and on past rehashes; the model searches a list front to back.  At any
+point of any run no two table entries hold the same bytes under the same checksum (inserting replaces an equal
+entry), so at most one entry can match a fragment, and searching any permutation of the table gives the same
+answer. -/
+theorem frag_lookup_unique (codec : Codec) (hrt : codec.RoundTrip) (h : Bytes → UInt32) (maxBlock : Nat)
+    (evs : List Ev) (hok : evsOk evs) (rs : List (Option Res)) (st : State)
+    (hrun : run codec h true maxBlock {} evs = .ok (rs, st)) (d : Bytes) (hd : UInt32) (l : List Chunk)
+    (hp : l.Perm st.table) :
+    ∃ r s1 s2, search codec true st d hd st.table = .ok (r, s1) ∧ search codec true st d hd l = .ok (r, s2) := by
+  have hu := run_uniq codec hrt h maxBlock evs {} (Inv_init codec) Uniq_init hok rs st hrun
+  rcases run_spec codec hrt h maxBlock evs {} [] (Inv_init codec) (fun p hp => by cases hp) hok with
+    ⟨rs', st', hr, hinv, _⟩ | herr
+  · rw [hr] at hrun; cases hrun
+    exact search_perm codec st hinv hu d hd l hp
+  · rw [herr] at hrun; cases hrun
+
 /-! ### non-vacuity: two different 3-byte fragments under a *constant* checksum, block size 8, a codec that
 really compresses (the toy RLE codec restricted to inputs it round-trips is replaced here by the identity-like
 `ident`, whose contract is immediate) -/
